@@ -191,10 +191,23 @@ PROPS = {
                         "cleaner laws: Lean proves them for `collapse`; that re.sub IS collapse on the classified patterns is assumed (E-RE-SUB) and cross-checked on a bounded domain"],
         "not_covered": ["the html cleaner (two lxml calls; the visible-text oracle is a statement about lxml's parser) -- bounded stand-in only"],
     },
+    "C17": {
+        "contracts": OFFSET_CONTRACTS,
+        "functions": OFFSET_FUNCS + ["models.FullCaseCitation.is_parallel_citation"],
+        "assumptions": [PART_ASSUMPTION, NONL_ASSUMPTION, REGEX_LEMMAS,
+                        "L-CAT: ''.join(str(w) for w in words[a:b]) == text[offs[a]:offs[b]] (induction over PART; the step is the proved lemma slice_concat)",
+                        "provenance is stated per store site: each textual metadata value is a substring of the text window it was matched in, and that window lies "
+                        "inside [full span start, span start] resp. [span end, full span end]",
+                        "court is an id looked up in courts_db, not text (not in the property's list)"],
+        "not_covered": ["defendant and California-style leading year stored by add_defendant: the substring-of-window clause does not discharge reliably "
+                        "(str.contains through a regex-search match of a stripped join) and was withdrawn; bounded stand-in only",
+                        "supra volume / antecedent of _extract_supra_citation and antecedent of _extract_shortform_citation (window arithmetic proved under C02; substring clause not stated)",
+                        "joint extent of parallel citations is covered by the equality of full-span starts (copies_when_joined), not by a substring clause"],
+    },
     "C18": {
         "contracts": OFFSET_CONTRACTS,
         "functions": ["helpers.get_year", "models.Edition.includes_year", "models.ResourceCitation.guess_edition",
-                      "helpers.disambiguate_reporters"] + OFFSET_FUNCS,
+                      "helpers.disambiguate_reporters", "models.FullCaseCitation.is_parallel_citation"] + OFFSET_FUNCS,
         "assumptions": ["_highest_valid_year is a symbolic integer (date.today().year + 1 at import time)",
                         "datetime.now().year is a symbolic integer read from an external object"],
         "not_covered": [],
